@@ -29,7 +29,8 @@ FLOORS = {'extractions': 300, 'focus_evaluations': 1000, 'depth2_focus': 50,
           'range_focus': 30, 'name_focus': 10, 'after_evaluation': 50,
           'with_changes': 100, 'changes_by_name': 5,
           'derived_originals': 100, 'frozen_formula_models': 50,
-          'wide_range_evaluations': 40, 'changes_before_extraction': 100}
+          'wide_range_evaluations': 40, 'changes_before_extraction': 100,
+          'extractions_before_build_code': 30}
 ANCHOR_FUNCS = {'xlcalculator/model.py': ['ModelCompiler.extract']}
 TIMEOUT = {'quick': 600, 'thorough': 3000}
 
@@ -183,12 +184,22 @@ def run(ctx):
             ctx.event('skipped_undecided')
             continue
 
-        def compile_():
+        def compile_(build_code=True):
             if use_names:
-                return build.model_from_xlsx(
-                    wb, os.path.join(out, f's{ctx.shard}.xlsx'),
-                    sheet_order=list(sheets))
-            return build.model_from_dict(wb, default_sheet=sheets[0])
+                build.write_xlsx(wb, os.path.join(out, f's{ctx.shard}.xlsx'),
+                                 list(sheets))
+                try:
+                    return ModelCompiler().read_and_parse_archive(
+                        os.path.join(out, f's{ctx.shard}.xlsx'),
+                        build_code=build_code)
+                finally:
+                    try:
+                        os.remove(os.path.join(out, f's{ctx.shard}.xlsx'))
+                    except OSError:
+                        pass
+            return ModelCompiler().read_and_parse_dict(
+                build.dict_of(wb), default_sheet=sheets[0],
+                build_code=build_code)
         candidates = list(m.formulas[-5:])
         if use_names:
             candidates = candidates[-3:] + ['NmCell', 'NmRange']
@@ -203,11 +214,18 @@ def run(ctx):
             after_eval = rng.random() < 0.5
             prov = rng.choice(['compiled', 'compiled', 'compiled', 'json',
                                'deepcopy', 'extracted'])
+            # extraction may also precede compilation: build_code=False, the
+            # code of both models is built after the extraction
+            late_code = rng.random() < 0.15
+            if late_code:
+                prov, after_eval = 'compiled', False
+                ctx.event('extractions_before_build_code')
             try:
                 # "any model": also one restored from JSON, deep-copied, or
                 # itself the result of an extraction with everything in focus
-                original = build.derive(compile_(), prov, os.path.join(
-                    out, f's{ctx.shard}.json'))
+                original = build.derive(compile_(not late_code), prov,
+                                        os.path.join(out,
+                                                     f's{ctx.shard}.json'))
                 if prov != 'compiled':
                     ctx.event('derived_originals')
             except Exception as e:  # noqa
@@ -278,6 +296,16 @@ def run(ctx):
                          group=f'raises:{type(e).__name__}:{after_eval}')
                 continue
             after = snapshot(original)
+            if late_code:
+                try:
+                    original.build_code()
+                    extracted.build_code()
+                except Exception as e:  # noqa
+                    ctx.fail(f'build_code after extract(focus={focus_addrs}) '
+                             f'raised {e!r}', {'cells': build.dict_of(wb),
+                                               'focus': focus_addrs},
+                             monitor='extract-raises', group='late-code')
+                    continue
             if before != after:
                 ctx.fail(f'extract(focus={focus_addrs}) changed the original '
                          f'model', {'cells': build.dict_of(wb),
